@@ -146,7 +146,7 @@ def gen_size(rng):
     """None (defaults) or a Size that forces the sampled / extend path on small inputs."""
     if rng.random() < 0.6:
         return None
-    sz = dict(do_all=rng.choice([1, 2, 3, 5]), do_all_exceptions=rng.choice([1, 2, 3]),
+    sz = dict(do_all=rng.choice([1, 2, 3, 5]), do_all_exceptions=rng.choice([1, 2, 3, 0]),
               n_per_length=rng.choice([1, 2, 64]), max_sampled_attempts=rng.choice([1, 2, 3]))
     if rng.random() < 0.15:
         sz['use_sampling'] = False       # with explicit sizes this switches nothing off: samples are still drawn (and seeded)
